@@ -169,6 +169,18 @@ def check_lab_family(ctx, case):
                 # the NotImplementedError of an abstract type whose structure was consulted
                 got = "RuntimeError" if type(e) is RuntimeError else "exc:" + type(e).__name__
             out.append([wd, acc, exp, got])
+        # one declaration of enzyme and signature, two roles: a mixin carrying both, combined with the module class and
+        # with the vector class in subclasses whose bodies are empty — the module type is asked first
+        if case.get("vwords"):
+            Vc = impl.generic_classes(enz)[1]
+            Gene = type("LabGene", (boot.AbstractPart,), {"cutter": enz, "signature": sigs[0]})
+            roles = [(type("LabGeneEntry", (Gene, M), {}), M), (type("LabGeneAcceptor", (Gene, Vc), {}), Vc)]
+            for (wd, u, d) in list(words) + [tuple(x) for x in case["vwords"]]:
+                for Pc, Gc in roles:
+                    g_, p_ = T.evaluate(Gc, wd), T.evaluate(Pc, wd)
+                    e_ = g_[0] == "valid" and sigmatch(sigs[0][0], g_[1]) and sigmatch(sigs[0][1], g_[2])
+                    if (p_[0] == "valid") != e_ or (e_ and list(p_[1:4]) != list(g_[1:4])):
+                        out.append([wd, [Pc.__name__, list(p_[:3])], ["generic", list(g_[:3]), list(sigs[0])], "-"])
         # a type derived from a kit type, with its own signature
         if case.get("kit"):
             K = asm.cls_by_name(case["kit"])
@@ -183,7 +195,10 @@ def check_lab_family(ctx, case):
         ctx.fail("a user-defined part family raised {}: {}".format(res[1], res[2]), case)
         return
     for wd, acc, exp, got in res:
-        if acc != exp:
+        if exp and exp[0] == "generic":
+            ctx.fail("{} (a signature mixin {} combined with the generic class, empty body) answers {} on {!r} where the "
+                     "generic class answers {}".format(acc[0], exp[2], acc[1], wd, exp[1]), case)
+        elif acc != exp:
             ctx.fail("user-defined part types {} accept {!r}, but by their signatures {} should".format(acc, wd, exp), case)
         elif got != "-" and ((exp and got not in exp) or (not exp and got != "RuntimeError")):
             ctx.fail("characterize() over a user-defined family answers {} on {!r}; the accepting types are {}".format(
@@ -298,8 +313,16 @@ def run(ctx):
             except RuntimeError:
                 continue
             words.append([gen.rot(wd, rng.randrange(len(wd))), u, d])
+        vwords = []
+        for (u, d) in [tuple(sigs[0]), (gen.rnd(rng, k), sigs[0][1])]:
+            try:
+                wd, _ = gen.gen_vector(rng, enz, d, u, tries=200)     # a vector that receives what such a part replaces
+            except RuntimeError:
+                continue
+            vwords.append([gen.rot(wd, rng.randrange(len(wd))), u, d])
         if len(words) >= 2:
-            ctx.guard(check_lab_family, {"enz": str(enz), "sigs": sigs, "words": words, "kit": asm.cls_name(K) if K else None})
+            ctx.guard(check_lab_family, {"enz": str(enz), "sigs": sigs, "words": words, "vwords": vwords,
+                                         "kit": asm.cls_name(K) if K else None})
     # characterize over the kit part families
     bases = [c for c in (getattr(m, n, None) for m in boot.kit_modules().values() for n in dir(m))
              if isinstance(c, type) and issubclass(c, boot.AbstractPart) and c.__subclasses__()
